@@ -24,7 +24,7 @@ namespace HgVerif.Sched
 
 /-- the caller discipline (see the file header) for a graph of `n` nodes -/
 def Disc {σ : Type} (β : Beh σ) (n : Nat) : Prop :=
-  ∀ i t u, ∀ r ∈ (β.eval i t u).reqs,
+  ∀ i, i < n → ∀ t u, ∀ r ∈ (β.eval i t u).reqs,
     r.node < n ∧ ((r.time = t ∧ i < r.node) ∨ (t < r.time ∧ r.node ≤ i))
 
 /-- invariant of the scan of a cycle at `t` once positions `< k` have had their turn -/
@@ -205,7 +205,7 @@ theorem cinv_scanFrom {σ : Type} (β : Beh σ) (n : Nat) (hβ : Disc β n) (t :
       | true =>
         rw [scanFrom_eval_ok β t fuel i g u ev hs hrok] at hok ⊢
         have h1 : CInv t (i + 1) { g with cursor := i } := cinv_step_eval h (by omega) i
-        have h2 := cinv_requests (β.eval i t u).reqs h1 hlen (hβ i t u)
+        have h2 := cinv_requests (β.eval i t u).reqs h1 hlen (hβ i (by omega) t u)
         exact ih (i + 1) _ _ _ (by omega) h2.1 h2.2 hok
       | false =>
         rw [scanFrom_eval_fail β t fuel i g u ev hs hrok] at hok; cases hok
@@ -287,7 +287,7 @@ theorem due_scanFrom {σ : Type} (β : Beh σ) (n : Nat) (hβ : Disc β n) (t : 
         · subst hji
           exact scanFrom_mem_acc β t fuel _ _ _ _ j (by simp)
         · have hst := slot_stable_requests (i := i) (j := j) (β.eval i t u).reqs (g := { g with cursor := i })
-            hlen hnow (by omega) hs (hβ i t u)
+            hlen hnow (by omega) hs (hβ i (by omega) t u)
           exact ih (i + 1) _ _ _ (by omega) hst.2.1 hst.2.2 (by omega) hst.1 hok
       | false =>
         rw [scanFrom_eval_fail β t fuel i g u ev hsi hrok] at hok; cases hok
@@ -447,7 +447,7 @@ theorem armed_wakeup_honoured {σ : Type} (fx : Bool) (β : Beh σ) (n : Nat) (h
 def exBeh : Beh Unit := ⟨fun i t u => if i = 0 then { st := u, reqs := [⟨1, t⟩, ⟨0, t + 2⟩] } else { st := u }⟩
 
 example : Disc exBeh 2 := by
-  intro i t u r hr
+  intro i _ t u r hr
   unfold exBeh at hr
   by_cases h : i = 0
   · subst h
